@@ -104,7 +104,56 @@ def plan(tier, seed):
             for mask in range(1, 1 << min(nsep, 6)):
                 yield {'base': name, 'var': 'sep', 'mask': mask}
     phases.append({'name': 'whitespace-and-separators', 'cases': variants(), 'runner': 'run_variants', 'chunk': 150})
+    # an argument that is an operator expression is the whole expression: brackets around it change nothing
+    phases.append({'name': 'argument-expressions', 'cases': [{'fn': f, 'arg': a, 'lead': l} for f in range(len(ARG_FUNCS))
+                                                             for a in range(len(ARG_EXPRS)) for l in range(len(ARG_LEADS))],
+                   'runner': 'run_arg_expr', 'chunk': 60})
     return phases
+
+
+ARG_FUNCS = ['COUNT({x})', 'SUM({x})', 'MAX({x})', 'MIN({x})', 'AVERAGE({x})', 'AND({x})', 'OR({x})', 'CONCATENATE({x})', 'COUNTBLANK(A1:A2)+COUNT({x})',
+             'IF({x},1,2)', 'IFERROR({x},0)', 'ROUND({x},1)', 'LEFT({x},2)', 'VALUE({x})', 'YEAR({x})', 'IFS(TRUE,{x})', 'INDEX(A1:A3,{x})',
+             'MATCH({x},A1:A3,0)', 'VLOOKUP({x},A1:B3,2,0)', 'SUMIF(A1:A3,{x})', 'COUNTIFS(A1:A3,{x})', 'ROUNDUP(2.345,{x})', 'MID(C1,{x},2)',
+             'SEARCH({x},C1&"12")', 'EDATE(D1,{x})', 'DATE(2020,{x},1)', 'ADDRESS({x},2)']
+# F9 and F8 are blank cells of the corpus block
+ARG_EXPRS = ['F9+1', 'A1+1', 'A2*2', 'A1&"x"', 'A1>0', 'F9&""', 'A1%+1', 'F9=0', 'A1:A1+1', 'A1-F9', 'A3/A1', 'E1&E1', 'A2<>A1', '1+A1', 'D1+1']
+ARG_LEADS = ['', 'A1:A3,', 'B1,']
+
+
+def run_arg_expr(cases, stats):
+    texts = []
+    for c in cases:
+        fn, arg, lead = ARG_FUNCS[c['fn']], ARG_EXPRS[c['arg']], ARG_LEADS[c['lead']]
+        multi = fn.split('(')[0] in ('COUNT', 'SUM', 'MAX', 'MIN', 'AVERAGE', 'AND', 'OR', 'CONCATENATE')
+        if lead and not multi:
+            texts += [None, None]
+            continue
+        texts.append('=' + fn.format(x=lead + arg))
+        texts.append('=' + fn.format(x=lead + '(' + arg + ')'))
+    live = [t for t in texts if t is not None]
+    vals = dict(zip(live, full_eval(live, stats)))
+    vio = []
+    for i, c in enumerate(cases):
+        plain, bracketed = texts[2 * i], texts[2 * i + 1]
+        if plain is None:
+            continue
+        a, b = vals[plain], vals[bracketed]
+        if a[0].startswith('LIB_EXC') or b[0].startswith('LIB_EXC'):
+            # one spelling is outside the grammar (e.g. a criterion that starts with a number and an operator): rejecting it
+            # whole is what the statement allows - the law speaks of spellings that are both accepted
+            stats['x:explored_not_judged'] += 1
+            continue
+        stats['validated'] += 1
+        stats['nontrivial'] += 1
+        same = (a[0] == b[0]) and (a[0] != 'VALUE' or repr(a[1]) == repr(b[1])) or \
+            (a[0] != 'VALUE' and b[0] != 'VALUE' and a[0].split(':')[0] == b[0].split(':')[0] == 'EVAL_EXC')
+        stats['out:' + ('same' if same else 'differs')] += 1
+        if not same:
+            vio.append({'i': i, 'desc': {'gen': 'argument-expression', 'base': ARG_FUNCS[c['fn']].split('(')[0], 'arg': ARG_EXPRS[c['arg']],
+                                         'outcome': a[0] if a[0] != 'VALUE' else 'VALUE_MISMATCH'},
+                        'expected': [bracketed, D.enc(b[1]) if b[0] == 'VALUE' else list(b)],
+                        'observed': [plain, D.enc(a[1]) if a[0] == 'VALUE' else list(a)]})
+    return vio
 
 
 # ---------------------------------------------------------------------------------------------
